@@ -108,7 +108,8 @@ def gen_app(rng, depth=0, used=(), prefix_params=0):
         ms = rng.sample(appgen.METHODS, rng.choice([1, 1, 2, 3, 5]))
         app['items'].append({'route': r, 'methods': {m: rng.choice(fits) for m in ms}, 'local': gen_fangs(rng, 2, auth_rate=0.3) if rng.random() < 0.3 else []})
     # a route of a mounted application that the parent registers too, under other methods (the route table then merges two method maps);
-    # the child then has no application-level fangs: its fangs would sit on the shared node (the side condition of C04 excludes such trees)
+    # in half of these the child keeps its application-level fangs: they sit on the mount node and guard the parent's route as well (a tree outside the side condition of C04,
+    # inside the quantifier of C15: "a security requirement iff an authentication fang guards it")
     for it in [it for it in app['items'] if 'mount' in it]:
         routes = [r for r in it['app']['items'] if 'route' in r]
         if not routes or rng.random() >= 0.3: continue
@@ -119,7 +120,7 @@ def gen_app(rng, depth=0, used=(), prefix_params=0):
         key = tuple('*' if x is None else x for x in appgen.pat(full))
         if key in seen: continue
         seen.add(key)
-        it['app']['fangs'] = []
+        if rng.random() < 0.5: it['app']['fangs'] = []          # otherwise the parent's route lies in the scope of the mounted application: its fangs guard it too
         total = prefix_params + len(re.findall(r':([A-Za-z0-9_]+)', full))
         fits = [k for k, sg in SIGS.items() if len(sg['path']) <= total]
         app['items'].append({'route': full, 'methods': {m: rng.choice(fits) for m in rng.sample(free_m, rng.choice([1, 1, 2][:len(free_m)] if len(free_m) < 2 else [1, 1, 2]))},
@@ -184,6 +185,19 @@ def template(route_prefix, route):
     return re.sub(r':([^/]+)', r'{\1}', full), re.findall(r':([^/]+)', full)
 
 
+def covering(app, prefix, route_pat):
+    """the fangs of the applications mounted below `app` whose composed mount prefix covers the route (segment by segment: equal literals, or params), innermost first.
+    A route lies in the scope of every application whose prefix it is under, whoever registered it (C04): the fangs sit on the mount node and guard the whole subtree"""
+    out = []
+    for it in app['items']:
+        if 'mount' in it:
+            p = prefix.rstrip('/') + it['mount']
+            pp = appgen.pat(p)
+            if len(pp) <= len(route_pat) and all((a is None and b is None) or (a is not None and a == b) for a, b in zip(pp, route_pat)):
+                out = covering(it['app'], p, route_pat) + list(reversed(it['app']['fangs'])) + out
+    return out
+
+
 def flat(app, prefix='', chain=()):
     """[(template, names, METHOD, handler id, chain innermost first)]"""
     mine = list(reversed(app['fangs'])) + list(chain)
@@ -192,7 +206,9 @@ def flat(app, prefix='', chain=()):
         if 'mount' in it: out += flat(it['app'], prefix.rstrip('/') + it['mount'], mine)
         else:
             t, names = template(prefix, it['route'])
-            for m, k in it['methods'].items(): out.append((t, names, m, k, list(reversed(it.get('local', []))) + mine))
+            full = (prefix.rstrip('/') + ('' if it['route'] == '/' else it['route'])) or '/'
+            inner = covering(app, prefix, appgen.pat(full))
+            for m, k in it['methods'].items(): out.append((t, names, m, k, list(reversed(it.get('local', []))) + inner + mine))
     return out
 
 
